@@ -137,6 +137,43 @@ theorem trProps_eq_map (st : Style) (o : Opts) (req : List (List Char))
   | nil => simp [trProps]
   | cons a as ih => simp [trProps, ih]
 
+theorem markReq_trProps (st : Style) (o : Opts) (req xreq : List (List Char))
+    (ps : List (List Char × Schema)) :
+    markReq xreq (trProps st o req ps) = ps.map (fun p =>
+      (p.1, (req.contains p.1 && !constDefaulted st p.2) || xreq.contains p.1, fieldCons st o p.2,
+        tr st o .plain p.2)) := by
+  rw [trProps_eq_map, markReq, List.map_map]
+  apply List.map_congr_left
+  intro p _
+  simp only [Function.comp]
+  cases xreq.contains p.1 <;> simp
+
+theorem markRequired_point (xreq : List (List Char)) (f : PField) :
+    PField.toIR (if xreq.contains f.key then { f with required := true } else f) =
+      (f.key, f.required || xreq.contains f.key, f.cons, f.ty) := by
+  by_cases h : xreq.contains f.key = true
+  · rw [if_pos h]
+    have h' : f.key ∈ xreq := by simpa using h
+    simp [PField.toIR, PField.key]
+    exact Or.inr h'
+  · rw [if_neg h]
+    have h' : ¬ f.key ∈ xreq := by simpa using h
+    simp [PField.toIR]
+    intro hh; exact absurd hh h'
+
+/-- the fields with their Python names, the allOf-level `required` applied by ORIGINAL name, Python names
+forgotten: the own fields of the IR — for EVERY field-name resolver `nm` -/
+theorem allOf_fields_refine (st : Style) (o : Opts) (nm : List Char → List Char)
+    (req xreq : List (List Char)) (ps : List (List Char × Schema)) :
+    (markRequired xreq (parseFields st o nm req ps)).map PField.toIR =
+      markReq xreq (trProps st o req ps) := by
+  rw [markReq_trProps, markRequired, parseFields, List.map_map, List.map_map]
+  apply List.map_congr_left
+  intro p _
+  simp only [Function.comp]
+  rw [markRequired_point]
+  simp [PField.key]
+
 end Dcg.Proofs.Sem
 
 namespace Dcg.Proofs.Sem
